@@ -115,7 +115,11 @@ func c19Worker(seed int64, id int, useUDP bool, concurrent bool) (transcript []s
 	f1, _, _ := genFSR(r, 3, 6)
 	f2, _, _ := genFSR(r, 2, 4)
 	f1[18], f1[15] = 0, f1[15]&0x3f|0x80 // linear, two's complement
-	repo := refbmc.NewRepo([]refbmc.SDRRecord{{ID: uint16(10 + id), Type: 1, Body: f1}, {ID: 0x200, Type: 2, Body: rbytes(r, 24)}, {ID: 0x201, Type: 1, Body: f2}}, 90000)
+	f3, _, _ := genFSR(r, 2, 21)
+	f4, _, _ := genFSR(r, 1, 17)
+	f5, _, _ := genFSR(r, 2, 9+id%8)
+	repo := refbmc.NewRepo([]refbmc.SDRRecord{{ID: uint16(10 + id), Type: 1, Body: f1}, {ID: 0x200, Type: 2, Body: rbytes(r, 24)}, {ID: 0x201, Type: 1, Body: f2},
+		{ID: 0x202, Type: 1, Body: f3}, {ID: 0x203, Type: 1, Body: f4}, {ID: 0x7000, Type: 1, Body: f5}}, 90000)
 	advertised := []refbmc.SuiteRecord{{ID: 3, Auth: 1, Integs: []byte{1}, Confs: []byte{1}}, {ID: 17, Auth: 3, Integs: []byte{4}, Confs: []byte{1}}, {ID: 8, Auth: 2, Integs: []byte{2}, Confs: []byte{1}}}
 	switch id % 4 {
 	case 1:
@@ -245,10 +249,15 @@ func c19Worker(seed int64, id int, useUDP bool, concurrent bool) (transcript []s
 	// two scripted personalities besides the random one: a connection that keeps being used
 	// across session open/close cycles, and one that keeps dialling fresh connections
 	var script []int
-	switch id % 4 {
+	switch id % 8 { // workers 4..7 (mod 8) draw their operations at random
+	case 3:
+		// a poller: repository walks, sensor reads and enumerations back to back
+		for k := 0; k < 5; k++ {
+			script = append(script, 2, 6, 7, 6, 12, 8, 6, 1, 6)
+		}
 	case 1:
 		for k := 0; k < 6; k++ {
-			script = append(script, 2, 16, 16, 15, 16, 4)
+			script = append(script, 2, 16, 16, 15, 14, 16, 4)
 		}
 	case 0:
 		for k := 0; k < 8; k++ {
